@@ -140,6 +140,9 @@ def check_c01(ctx):
 
 def _valid_for(ctx, aname, sname):
     """Label/traits validity of server for app, from harness truth."""
+    custom = getattr(ctx.truth, 'valid_for', None)
+    if custom is not None:
+        return custom(aname, sname)
     label = ctx.truth.partition_of(aname)
     need = ctx.truth.traits_of(aname)
     if ctx.truth.srv_label(sname) != label:
@@ -547,17 +550,18 @@ def check_c08(ctx):
             retention = ctx.truth.retention_of(name)
             if retention is None:
                 retention = 0
-            if smax + retention > t1 and post.server != pre.server:
+            # the server went down at some instant in [smin, smax]
+            if smin + retention > t1 and post.server != pre.server:
                 return ('C08:lost-placement-within-retention',
-                        '%s on down server %s (down since <= %.3f, retention '
+                        '%s on down server %s (down since >= %.3f, retention '
                         '%s, cycle ended %.3f) is now %r' % (
-                            name, pre.server, smax, retention, t1,
+                            name, pre.server, smin, retention, t1,
                             post.server))
-            if smin + retention <= t0 and post.server == pre.server:
+            if smax + retention <= t0 and post.server == pre.server:
                 return ('C08:kept-placement-beyond-retention',
-                        '%s still on down server %s (down since >= %.3f, '
+                        '%s still on down server %s (down since <= %.3f, '
                         'retention %s, cycle started %.3f)' % (
-                            name, pre.server, smin, retention, t0))
+                            name, pre.server, smax, retention, t0))
         elif state == 'frozen':
             if (not pre.unschedule and not pre.renew and
                     post.server != pre.server):
